@@ -56,8 +56,11 @@ FDHistory(M, N, P, bN) == /\ ~job.active
                           /\ job' = [active |-> TRUE, kind |-> "fdhist", M |-> M, N |-> N, P |-> P, bN |-> bN]
 \* grid: the plain momentum grid, or the three-scale grid the manager hands to the solver (its own Jacobians)
 GridKinds == {"Grid", "Grid3Scales"}
-MomentCell(N, scale, mass, g) == /\ ~job.active
-                                 /\ job' = [active |-> TRUE, kind |-> "moment", N |-> N, scale |-> scale, mass |-> mass, grid |-> g]
+\* bM, bN: the bases the solver is configured with -- the deviation is handed to getDeltas in those bases and the moments must not
+\* depend on them (getDeltas converts to nodal values on every axis before it applies position-dependent weights)
+MomentCell(N, scale, mass, g, bM, bN) ==
+    /\ ~job.active
+    /\ job' = [active |-> TRUE, kind |-> "moment", N |-> N, scale |-> scale, mass |-> mass, grid |-> g, bM |-> bM, bN |-> bN]
 Done == job.active /\ job' = [active |-> FALSE]
 
 Next == \/ \E s \in Sizes, bM \in Bases, bN \in Bases, d \in Derivs, P \in 1..MaxP, bg \in BgKinds :
@@ -65,7 +68,7 @@ Next == \/ \E s \in Sizes, bM \in Bases, bN \in Bases, d \in Derivs, P \in 1..Ma
         \/ \E s \in Sizes, P \in 1..MaxP, bg \in BgKinds : BasisCell(s[1], s[2], P, bg)
         \/ \E N \in NSizes, P \in 1..MaxP, bg \in BgKinds : FDChain(N, P, bg)
         \/ \E s \in Sizes, P \in 1..MaxP, bN \in Bases : FDHistory(s[1], s[2], P, bN)
-        \/ \E N \in NSizes, sc \in 0..3, ms \in 0..2, g \in GridKinds : MomentCell(N, sc, ms, g)
+        \/ \E N \in NSizes, sc \in 0..3, ms \in 0..2, g \in GridKinds, bM \in Bases, bN \in Bases : MomentCell(N, sc, ms, g, bM, bN)
         \/ Done
 Spec == Init /\ [][Next]_vars
 
